@@ -30,7 +30,20 @@ for d in sorted(glob.glob("/verif/seeded/*")):
     finally:
         sh("git -C /tmp/sweeprepo checkout -- . && git -C /tmp/sweeprepo clean -fdq")
     sigs = re.findall(r"^\s+what: (\S+)", r.stdout, re.M)
-    meta["sweep"] = {"head": head, "tier": tier, "applies": True, "exit": r.returncode, "violations": sigs[:6]}
+    by = pid
+    # a change may be caught by the check of a neighbouring property (meta "other_checks"): tried when the own check is quiet
+    if r.returncode == 0:
+        sh("git -C /tmp/sweeprepo apply %s/patch.diff" % d)
+        try:
+            for other in meta.get("other_checks", []):
+                r2 = sh("cd /verif && timeout 3000 bin/check %s %s" % (other, tier), env=env)
+                if r2.returncode == 1:
+                    r, by = r2, other
+                    sigs = re.findall(r"^\s+what: (\S+)", r.stdout, re.M)
+                    break
+        finally:
+            sh("git -C /tmp/sweeprepo checkout -- . && git -C /tmp/sweeprepo clean -fdq")
+    meta["sweep"] = {"head": head, "tier": tier, "applies": True, "exit": r.returncode, "violations": sigs[:6], "by": by}
     json.dump(meta, open(d + "/meta.json", "w"), indent=1)
     print(name, "exit=%d" % r.returncode, sigs[:2], flush=True)
 sh("rm -rf /tmp/sweeprepo /tmp/sweepout")
